@@ -25,11 +25,18 @@ import FqModel.Reasm
        equal fq's report field by field (DIVERGE otherwise); the recorded calls must satisfy the interface
        assumption (`flushDiscipline`, in-order delivery of sent bytes) and the harness must have seen the traced
        Decoder end in the state fq reported (T=same);
-    5. known findings: a PROPFAIL is reported as KNOWN only if it is explained exactly by
-       `defrag-length` (fq drops a reassembled datagram whose payload length equals the total length of the
-       fragment that completed it — the model predicts the drop and fq's report equals the prediction), or lies in
-       a direction of class `seq-wrap` (sequence numbers cross 2^32 and the segments of that direction do not
-       arrive exactly once and in order: gopacket's Sequence.Difference is off by one across the wrap).
+    5. known findings: the predicate is evaluated twice — in the reference world (every captured segment counts) and
+       in the world of the fq model (segments lost to fq's completion test `acceptReassembled` or rejected by
+       `Accept` = TCPSimpleFSM.CheckState, `fsmCheck`, never reach the assembler).  A PROPFAIL is reported as KNOWN
+       only if it is explained exactly by
+         `defrag-length` fq drops a reassembled datagram whose payload length equals the total length of the fragment
+                         that completed it: the model predicts the drop and fq's report satisfies the predicate on the rest;
+         `fsm-reorder`   the transliterated CheckState rejects >= 1 segment carrying data/SYN/FIN and fq's report
+                         satisfies the predicate on the remaining segments;
+         `seq-wrap`      every failure lies in a direction whose sequence numbers cross 2^32 and whose data segments do
+                         not arrive exactly once and in order (gopacket's Sequence.Difference is off by one across
+                         the wrap); for such a direction the interface check on the recorded calls is skipped too.
+    6. `linktable`: the dispatch table dumped from the binary under test must equal `linkToDecodeFn`.
 -/
 open FqModel FqModel.Proto FqModel.Reasm
 
